@@ -87,3 +87,59 @@ package packfile
 //gvc:  ensures consumed: err == nil ==> len(now(delta)) == 0
 //gvc:  ensures srcsize: err == nil && n0 >= 1 ==> spec_leb_value(d0, p0, h1) == len(src)
 //gvc:end
+
+//gvc:func growHint
+//gvc:  props C09 C53
+//gvc:  theory bv
+//gvc:  ensures clamp: result == ite(n <= 0, 0, ite(n > 0x40000000, 0x40000000, n))
+//gvc:  ensures range: 0 <= result && result <= 0x40000000
+//gvc:end
+
+// boundedWriter: never forwards more than limit bytes in total to the
+// underlying writer; an overrun is reported as ErrInflatedSizeMismatch.
+// Object invariant: 0 <= n <= limit.
+//gvc:func (*boundedWriter).Write
+//gvc:  props C09 C53
+//gvc:  theory int
+//gvc:  results cnt err
+//gvc:  requires inv: 0 <= b.n && b.n <= b.limit
+//gvc:  requires sane: b.limit <= 0x2000000000000000
+//gvc:  requires wnn: b.w != nil
+//gvc:  ensures inv: 0 <= b.n && b.n <= b.limit
+//gvc:  ensures account: b.n == old(b.n) + cnt && b.w.#wlen == old(b.w.#wlen) + cnt
+//gvc:  ensures range: 0 <= cnt && cnt <= len(p)
+//gvc:  ensures overrun: old(b.n) + len(p) > b.limit ==> is(err, ErrInflatedSizeMismatch)
+//gvc:  ensures fits: old(b.n) + len(p) <= b.limit && err == nil ==> cnt == len(p)
+//gvc:  ensures frame: b.limit == old(b.limit)
+//gvc:end
+
+// BoundedReadCloser: the sentinel trick. Invariant: while no overrun has been
+// reported, lr.N >= 1 (budget = limit+1 minus bytes returned so far).
+//gvc:func (*BoundedReadCloser).Read
+//gvc:  props C09 C53
+//gvc:  theory int
+//gvc:  results cnt err
+//gvc:  requires inv: b.overrun || b.lr.N >= 1
+//gvc:  ensures inv: b.overrun || b.lr.N >= 1
+//gvc:  ensures range: 0 <= cnt && cnt <= len(p)
+//gvc:  ensures budget: !old(b.overrun) ==> cnt <= old(b.lr.N) - 1
+//gvc:  ensures spent: !old(b.overrun) && !b.overrun ==> b.lr.N == old(b.lr.N) - cnt
+//gvc:  ensures sticky: old(b.overrun) ==> cnt == 0 && err == ErrInflatedSizeMismatch && b.overrun
+//gvc:  ensures report: b.overrun ==> err == ErrInflatedSizeMismatch
+//gvc:end
+
+// objectEntry (coarse: only the tracked facts matter; every other call is
+// abstracted). Property C09: an entry whose inflated length differs from the
+// size declared in its header is rejected. #inflated is the byte count the
+// bounded writer accepted (its field n).
+//gvc:func objectEntry
+//gvc:  props C09
+//gvc:  theory int
+//gvc:  opt coarse
+//gvc:  opt frame args
+//gvc:  results next err
+//gvc:  requires rnn: r != nil
+//gvc:  requires offs: r.offset >= 0
+//gvc:  ensures exact: err == nil && next == nil ==> now(bw).n == r.packData.objectHeader.Size
+//gvc:  ensures ofsbase: err == nil && next == nil && r.packData.objectHeader.Type == 6 ==> spec_ofs_base_ok(r.packData.objectHeader.Offset, r.packData.objectHeader.Offset - r.packData.objectHeader.OffsetReference)
+//gvc:end
